@@ -1,1 +1,538 @@
-//! EXPLORE engine (explicit-state search over the endpoint machine).
+//! EXPLORE — explicit-state model checking of the endpoint machine.
+//!
+//! A state is the event history that reaches it (live contexts are neither
+//! Clone nor Hash): every node is rebuilt by replaying its history on a fresh
+//! real context, in lock-step with the reference endpoint.  Two modes, both
+//! complete within their bound: stateless (every sequence of length <= D) and
+//! stateful BFS to fixpoint under an observational canonical key.
+use crate::engine::Acc;
+use crate::refmodel::*;
+use crate::subject::{self, DecOut, Owned, StepObs, StepOut};
+use crate::types::*;
+use serde_json::{json, Value};
+use std::collections::HashMap;
+
+pub const PROBE_SRC: u8 = 0x10;
+
+#[derive(Clone, Copy, Debug, PartialEq, Eq, Hash)]
+pub enum Aspect {
+    /// result of process/decode (type, payload, error)
+    Result,
+    /// a response was produced where none is due, or vice versa, or the buffer was touched
+    NoResp,
+    /// response bytes for command code
+    Resp(u8),
+    /// EID accessors of both halves
+    Eids,
+    /// probe answers after the history, per command code
+    Probe(u8),
+    /// an unexpected panic
+    Panic,
+}
+
+#[derive(Clone, Debug)]
+pub struct Diff {
+    pub aspect: Aspect,
+    pub text: String,
+}
+
+/// The probe battery for a configuration: one request per observable.
+pub fn probes(cfg: &Cfg) -> Vec<Vec<u8>> {
+    let a = cfg.addr;
+    let mut v = vec![
+        forge_request(PROBE_SRC, a, 0, false, 0x02, &[]),
+        forge_request(PROBE_SRC, a, 0, false, 0x03, &[]),
+        forge_request(PROBE_SRC, a, 0, false, 0x04, &[0xFF]),
+        forge_request(PROBE_SRC, a, 0, false, 0x05, &[]),
+    ];
+    for i in 0..cfg.vendors.len() {
+        v.push(forge_request(PROBE_SRC, a, 0, false, 0x06, &[i as u8]));
+    }
+    // Set-Discovered-Flag: must not assign, reports the current EID
+    v.push(forge_request(PROBE_SRC, a, 0, false, 0x01, &[3, 0x6B]));
+    v
+}
+
+/// Compare a produced response with the expectation.  `ignore_iid` masks the
+/// instance-id bits (K-C12-IID is C12's business only).
+pub fn compare_response(exp: &RespExp, resp_len: Option<usize>, extent: usize, resp: &[u8], ignore_iid: bool) -> Option<String> {
+    match exp {
+        RespExp::None => {
+            if resp_len.is_some() {
+                Some(format!("a response of {:?} bytes was reported where none is due", resp_len))
+            } else if extent != 0 {
+                Some(format!("no response was reported but the response buffer was modified up to offset {}", extent))
+            } else {
+                None
+            }
+        }
+        RespExp::KnownPanic(_) => None,
+        RespExp::Bytes { bytes, body_claimed } => {
+            let Some(n) = resp_len else {
+                return Some(format!("no response was produced, expected {}", hex(bytes)));
+            };
+            if n > resp.len() || extent > n {
+                return Some(format!("reported response length {} but the buffer was modified up to offset {}", n, extent));
+            }
+            let got = &resp[..n];
+            if *body_claimed {
+                if got.len() != bytes.len() {
+                    return Some(format!("response is {} ({} bytes), expected {} ({} bytes)", hex(got), n, hex(bytes), bytes.len()));
+                }
+                for i in 0..n {
+                    let mut m = 0xFFu8;
+                    if i == 7 {
+                        m = 0xF0;
+                    }
+                    if i == 9 && ignore_iid {
+                        m = 0xE0;
+                    }
+                    if i == n - 1 && ignore_iid {
+                        continue; // PEC covers the instance id; checked below
+                    }
+                    if (got[i] ^ bytes[i]) & m != 0 {
+                        return Some(format!("response byte {} is {:#04x}, expected {:#04x} (got {}, expected {})", i, got[i], bytes[i], hex(got), hex(bytes)));
+                    }
+                }
+                if crc8(&got[..n - 1]) != got[n - 1] {
+                    return Some(format!("response {} has a wrong PEC", hex(got)));
+                }
+                None
+            } else {
+                // only framing, header, command and completion code are specified
+                if n < 13 {
+                    return Some(format!("response {} is too short to carry a completion code", hex(got)));
+                }
+                for i in (0..12).filter(|&i| i != 2) {
+                    let mut m = 0xFFu8;
+                    if i == 7 {
+                        m = 0xF0;
+                    }
+                    if i == 9 && ignore_iid {
+                        m = 0xE0;
+                    }
+                    if (got[i] ^ bytes[i]) & m != 0 {
+                        return Some(format!("response byte {} is {:#04x}, expected {:#04x} ({})", i, got[i], bytes[i], hex(got)));
+                    }
+                }
+                if got[2] as usize + 4 != n || crc8(&got[..n - 1]) != got[n - 1] {
+                    return Some(format!("response {} has a wrong byte count or PEC", hex(got)));
+                }
+                None
+            }
+        }
+    }
+}
+
+pub fn compare_decode(rd: &RefDec, got: &DecOut) -> Option<String> {
+    match (rd.class, got) {
+        (_, DecOut::Panic(m)) => Some(format!("panicked: {}", m)),
+        (Class::Accept, DecOut::Ok { ty, off, len, .. }) => {
+            if *ty == rd.ty && *off == rd.off && off + len == rd.end {
+                None
+            } else {
+                Some(format!("accepted as type {:#04x} payload [{}, {}), expected type {:#04x} payload [{}, {})", ty, off, off + len, rd.ty, rd.off, rd.end))
+            }
+        }
+        (Class::Accept, DecOut::Err { ty, err }) => Some(format!("a well-formed packet was rejected with ({:#04x}, {:?})", ty, err)),
+        (Class::Reject, DecOut::Ok { .. }) => Some(format!("a malformed packet was accepted: {:?}", got)),
+        (Class::Reject, DecOut::Err { ty, err }) => (!rd.admissible(*ty, *err)).then(|| format!("rejected with ({:#04x}, {:?}), which does not hold of the input", ty, err)),
+        (Class::TooShort, DecOut::Ok { .. }) => Some(format!("an input too short for its headers was accepted: {:?}", got)),
+        (Class::TooShort, DecOut::Err { .. }) => None,
+        (Class::Unclaimed, DecOut::Ok { off, len, .. }) => (!rd.pec_ok || *off != rd.off || off + len != rd.end).then(|| format!("accepted with payload [{}, {}) / pec_ok={}", off, off + len, rd.pec_ok)),
+        (Class::Unclaimed, DecOut::Err { ty, err }) => (!rd.admissible(*ty, *err)).then(|| format!("rejected with ({:#04x}, {:?}), which does not hold of the input", ty, err)),
+        (Class::KnownPanic(_), _) => None,
+    }
+}
+
+/// Lock-step comparison of one step.  `r` is the reference endpoint *before*
+/// the step and is advanced.
+pub fn compare_step(r: &mut RefEndpoint, ev: &Event, obs: &StepObs) -> Vec<Diff> {
+    let mut d = vec![];
+    match (ev, &obs.out) {
+        (Event::Process(p), StepOut::Proc { out, extent, resp }) => {
+            let (rd, rexp) = r.process(p);
+            if let DecOut::Panic(m) = &out.dec {
+                if !matches!(rd.class, Class::KnownPanic(_)) && !matches!(rexp, RespExp::KnownPanic(_)) {
+                    d.push(Diff { aspect: Aspect::Panic, text: format!("process_packet panicked: {}", m) });
+                }
+            } else {
+                if let Some(t) = compare_decode(&rd, &out.dec) {
+                    d.push(Diff { aspect: Aspect::Result, text: format!("process_packet: {}", t) });
+                }
+                if let Some(t) = compare_response(&rexp, out.resp_len, *extent, resp, true) {
+                    let aspect = match rexp {
+                        RespExp::None => Aspect::NoResp,
+                        _ => Aspect::Resp(rd.cmd),
+                    };
+                    d.push(Diff { aspect, text: t });
+                }
+            }
+        }
+        (Event::Decode(p), StepOut::Dec(got)) => {
+            let rd = ref_decode(p);
+            if let Some(t) = compare_decode(&rd, got) {
+                let aspect = if got.is_panic() { Aspect::Panic } else { Aspect::Result };
+                if !(got.is_panic() && matches!(rd.class, Class::KnownPanic(_))) {
+                    d.push(Diff { aspect, text: format!("decode_packet: {}", t) });
+                }
+            }
+        }
+        (Event::GetLength(p), StepOut::Len(got)) => {
+            let exp = ref_get_length(p);
+            let ok = match (exp, got) {
+                (Some(n), subject::LenOut::Ok(m)) => n == *m,
+                (None, subject::LenOut::Err { ty, .. }) => *ty == T_INVALID,
+                _ => false,
+            };
+            if !ok {
+                d.push(Diff { aspect: Aspect::Result, text: format!("get_length = {:?}, expected {:?}", got, exp) });
+            }
+        }
+        (e, StepOut::Unit) => r.apply(e),
+        (e, StepOut::Panic(m)) => {
+            r.apply(e);
+            d.push(Diff { aspect: Aspect::Panic, text: format!("{:?} panicked: {}", e, m) });
+        }
+        (e, o) => d.push(Diff { aspect: Aspect::Panic, text: format!("harness: event {:?} produced observation {:?}", e, o) }),
+    }
+    if obs.eid_req != r.eid_req || obs.eid_resp != r.eid_resp {
+        d.push(Diff {
+            aspect: Aspect::Eids,
+            text: format!(
+                "EID accessors report request-half {:#04x} / response-half {:#04x}, expected {:#04x} / {:#04x}",
+                obs.eid_req, obs.eid_resp, r.eid_req, r.eid_resp
+            ),
+        });
+    }
+    d
+}
+
+/// Everything observed at a node: the last step, then the probe answers.
+pub struct Node {
+    pub diffs: Vec<Diff>,
+    pub key: u64,
+    pub eids: (u8, u8),
+    /// concatenated probe answers (for the differential oracle)
+    pub probe_answers: Vec<u8>,
+    pub last_obs: Option<StepObs>,
+    pub calls: u64,
+}
+
+pub struct Machine {
+    pub cfg: Cfg,
+    pub init: Vec<Event>,
+    pub alphabet: Vec<Event>,
+}
+
+impl Machine {
+    pub fn history(&self, idx: &[u8]) -> Vec<Event> {
+        idx.iter().map(|&i| self.alphabet[i as usize].clone()).collect()
+    }
+
+    /// Replay `init` then `idx` on a fresh real context in lock-step with the
+    /// reference; check the last step (every prefix is its own node) and the
+    /// probe battery.
+    pub fn eval(&self, owned: &Owned, probe_pkts: &[Vec<u8>], idx: &[u8]) -> Node {
+        let mut ctx = owned.ctx();
+        let mut r = RefEndpoint::new(&self.cfg);
+        let mut calls = 0u64;
+        for ev in &self.init {
+            let obs = subject::apply(&mut ctx, ev);
+            let _ = compare_step(&mut r, ev, &obs);
+            calls += 1;
+        }
+        let mut diffs = vec![];
+        let mut last_obs = None;
+        for (k, &i) in idx.iter().enumerate() {
+            let ev = &self.alphabet[i as usize];
+            let obs = subject::apply(&mut ctx, ev);
+            calls += 1;
+            let d = compare_step(&mut r, ev, &obs);
+            if k + 1 == idx.len() {
+                diffs = d;
+                last_obs = Some(obs);
+            }
+        }
+        // probe battery on this (disposable) context
+        let mut h = Fnv::default().u64(fp(&self.cfg));
+        let mut answers = vec![];
+        for p in probe_pkts {
+            let ev = Event::Process(p.clone());
+            let obs = subject::apply(&mut ctx, &ev);
+            calls += 1;
+            let cmd = p[10];
+            for df in compare_step(&mut r, &ev, &obs) {
+                let aspect = match df.aspect {
+                    Aspect::Resp(_) | Aspect::NoResp | Aspect::Result | Aspect::Eids => Aspect::Probe(cmd),
+                    a => a,
+                };
+                diffs.push(Diff { aspect, text: format!("probe {:#04x} after the history: {}", cmd, df.text) });
+            }
+            if let StepOut::Proc { out, resp, .. } = &obs.out {
+                answers.extend_from_slice(&(out.resp_len.unwrap_or(0xFFFF) as u16).to_le_bytes());
+                answers.extend_from_slice(resp);
+                answers.push(obs.eid_req);
+                answers.push(obs.eid_resp);
+            }
+        }
+        let eids = (ctx.get_request_eid(), ctx.get_response_eid());
+        h = h.bytes(&answers);
+        Node { diffs, key: h.finish(), eids, probe_answers: answers, last_obs, calls }
+    }
+}
+
+trait EidAccess {
+    fn get_request_eid(&self) -> u8;
+    fn get_response_eid(&self) -> u8;
+}
+impl EidAccess for libmctp::smbus::MCTPSMBusContext<'_> {
+    fn get_request_eid(&self) -> u8 {
+        use libmctp::mctp_traits::SMBusMCTPRequestResponse;
+        self.get_request().get_eid()
+    }
+    fn get_response_eid(&self) -> u8 {
+        use libmctp::mctp_traits::SMBusMCTPRequestResponse;
+        self.get_response().get_eid()
+    }
+}
+
+pub struct ExploreStats {
+    pub sequences: u64,
+    pub bfs_states: u64,
+    pub bfs_transitions: u64,
+    pub bfs_max_depth: u64,
+    pub merged_paths_checked: u64,
+    /// one representative history per reachable state (init events included)
+    pub reps: Vec<Vec<Event>>,
+}
+
+/// Which diffs a property claims: (diff, full history, index of the step the diff belongs to = last).
+pub type Filter = dyn Fn(&Diff, &[Event]) -> bool + Sync;
+
+fn case_json(prop: &str, m: &Machine, idx: &[u8]) -> Value {
+    json!({"prop": prop, "check": "history", "cfg": m.cfg, "init": m.init, "history": m.history(idx)})
+}
+
+/// Stateless mode: every event sequence of length 1..=depth (no merging).
+pub fn stateless(run: &mut crate::engine::Run, prop: &'static str, name: &str, m: &Machine, depth: usize, filter: &Filter) -> u64 {
+    let a = m.alphabet.len() as u64;
+    let mut total = 0u64;
+    for d in 1..=depth {
+        total += a.pow(d as u32);
+    }
+    let probe_pkts = probes(&m.cfg);
+    run.sweep_chunked(&format!("{}: all sequences of length 1..={} over {} events", name, depth, a), total, |acc, lo, hi| {
+        let owned = Owned::new(&m.cfg);
+        let mut idx: Vec<u8> = Vec::with_capacity(depth);
+        for i in lo..hi {
+            // index -> (length, digits)
+            let mut r = i;
+            let mut len = 1usize;
+            loop {
+                let c = a.pow(len as u32);
+                if r < c {
+                    break;
+                }
+                r -= c;
+                len += 1;
+            }
+            idx.clear();
+            for _ in 0..len {
+                idx.push((r % a) as u8);
+                r /= a;
+            }
+            let node = m.eval(&owned, &probe_pkts, &idx);
+            acc.evals += 1;
+            acc.trans += node.calls;
+            acc.validated += 1;
+            acc.state(node.key);
+            let last = &m.alphabet[*idx.last().unwrap() as usize];
+            if len >= 2 && idx.iter().any(|&e| changes_state(&m.alphabet[e as usize])) {
+                acc.nontrivial(Fnv::default().bytes(&idx).u64(len as u64).finish());
+            }
+            acc.outcome2(event_kind(last), if node.diffs.is_empty() { "agrees" } else { "differs" });
+            if i % 400_009 == 3 {
+                acc.sample(|| json!({"history": m.history(&idx), "eids_after": [node.eids.0, node.eids.1]}));
+            }
+            let hist_ev = m.history(&idx);
+            for df in node.diffs.iter().filter(|df| filter(df, &hist_ev)) {
+                acc.violation(len as u64, "history", format!("after {} event(s): {}", len, df.text), || case_json(prop, m, &idx));
+            }
+        }
+    });
+    total
+}
+
+pub fn changes_state(ev: &Event) -> bool {
+    match ev {
+        Event::SetUuid(_) | Event::SetEidReq(_) | Event::SetEidResp(_) => true,
+        Event::Process(p) => {
+            let rd = ref_decode(p);
+            rd.class == Class::Accept && rd.is_request && rd.cmd == 0x01 && p[11] < 2
+        }
+        _ => false,
+    }
+}
+
+pub fn event_kind(ev: &Event) -> &'static str {
+    match ev {
+        Event::Process(p) => {
+            let rd = ref_decode(p);
+            match rd.class {
+                Class::Accept if rd.is_control && rd.is_request => match rd.cmd {
+                    0x01 => "process.set_eid",
+                    0x02 => "process.get_eid",
+                    0x03 => "process.get_uuid",
+                    0x04 => "process.get_version",
+                    0x05 => "process.get_msg_types",
+                    0x06 => "process.get_vendor",
+                    _ => "process.other_request",
+                },
+                Class::Accept if rd.is_control => "process.response",
+                Class::Accept => "process.vendor_or_spdm",
+                Class::Unclaimed => "process.response",
+                _ => "process.rejected",
+            }
+        }
+        Event::Decode(_) => "decode",
+        Event::SetUuid(_) => "set_uuid",
+        Event::SetEidReq(_) => "set_eid(request half)",
+        Event::SetEidResp(_) => "set_eid(response half)",
+        Event::GetLength(_) => "get_length",
+    }
+}
+
+/// Stateful BFS to fixpoint under the observational key, from the machine's
+/// initial state.  Every (state, event) pair is executed; on every re-arrival
+/// at a known key the two concrete contexts are compared (probe answers byte
+/// for byte, and one further step under every event).
+pub fn bfs(run: &mut crate::engine::Run, prop: &'static str, name: &str, m: &Machine, filter: &Filter, max_states: usize) -> ExploreStats {
+    let owned = Owned::new(&m.cfg);
+    let probe_pkts = probes(&m.cfg);
+    let a = m.alphabet.len();
+    let mut acc = Acc::default();
+    let root = m.eval(&owned, &probe_pkts, &[]);
+    let mut seen: HashMap<u64, (Vec<u8>, Vec<u8>)> = HashMap::new(); // key -> (representative history, probe answers)
+    seen.insert(root.key, (vec![], root.probe_answers.clone()));
+    acc.state(root.key);
+    let mut frontier: Vec<Vec<u8>> = vec![vec![]];
+    let mut depth = 0u64;
+    let mut transitions = 0u64;
+    let mut merged = 0u64;
+    let mut capped = false;
+    while !frontier.is_empty() {
+        let mut next = vec![];
+        for hist in &frontier {
+            for e in 0..a {
+                let mut idx = hist.clone();
+                idx.push(e as u8);
+                let node = m.eval(&owned, &probe_pkts, &idx);
+                transitions += 1;
+                acc.evals += 1;
+                acc.trans += node.calls;
+                acc.validated += 1;
+                let last = &m.alphabet[e];
+                acc.outcome2(event_kind(last), if node.diffs.is_empty() { "bfs.agrees" } else { "bfs.differs" });
+                let hist_ev = m.history(&idx);
+                for df in node.diffs.iter().filter(|df| filter(df, &hist_ev)) {
+                    acc.violation(idx.len() as u64, "reachable-state", format!("in a state reached by {} event(s): {}", idx.len(), df.text), || case_json(prop, m, &idx));
+                }
+                match seen.get(&node.key) {
+                    None => {
+                        if seen.len() >= max_states {
+                            capped = true;
+                            continue;
+                        }
+                        seen.insert(node.key, (idx.clone(), node.probe_answers.clone()));
+                        acc.state(node.key);
+                        acc.nontrivial(node.key);
+                        next.push(idx);
+                    }
+                    Some((rep, answers)) => {
+                        // differential oracle: same key reached by a different path
+                        if *answers != node.probe_answers {
+                            acc.violation(idx.len() as u64, "merge-differs", "two histories with the same canonical key answer the probe battery differently".to_string(), || case_json(prop, m, &idx));
+                        }
+                        if rep != &idx {
+                            merged += 1;
+                            // one further step under every event must be observed identically
+                            for e2 in 0..a {
+                                let mut p1 = rep.clone();
+                                p1.push(e2 as u8);
+                                let mut p2 = idx.clone();
+                                p2.push(e2 as u8);
+                                let n1 = m.eval(&owned, &probe_pkts, &p1);
+                                let n2 = m.eval(&owned, &probe_pkts, &p2);
+                                acc.trans += n1.calls + n2.calls;
+                                if n1.key != n2.key || n1.last_obs != n2.last_obs || n1.probe_answers != n2.probe_answers {
+                                    acc.violation(
+                                        p2.len() as u64,
+                                        "hidden-state",
+                                        format!("two histories that agree on every probe diverge after one more event ({}): hidden state", event_kind(&m.alphabet[e2])),
+                                        || json!({"prop": prop, "check": "history-pair", "cfg": m.cfg, "init": m.init, "history": m.history(&p2), "other": m.history(&p1)}),
+                                    );
+                                }
+                            }
+                        }
+                    }
+                }
+            }
+        }
+        if !next.is_empty() {
+            depth += 1;
+        }
+        frontier = next;
+    }
+    if capped {
+        run.caps.push(format!("{}: BFS stopped adding states at {} (cap)", name, max_states));
+    }
+    acc.sample(|| json!({"bfs": name, "states": seen.len(), "max_depth": depth, "deepest_history": seen.values().map(|v| v.0.len()).max()}));
+    let mut reps: Vec<Vec<Event>> = seen
+        .values()
+        .map(|v| {
+            let mut h = m.init.clone();
+            h.extend(m.history(&v.0));
+            h
+        })
+        .collect();
+    reps.sort_by(|a, b| (a.len(), fp(a)).cmp(&(b.len(), fp(b))));
+    let stats = ExploreStats { sequences: 0, bfs_states: seen.len() as u64, bfs_transitions: transitions, bfs_max_depth: depth, merged_paths_checked: merged, reps };
+    let card = transitions;
+    run.merge_acc(acc);
+    run.subspaces.push(crate::engine::SubSpace { name: format!("{}: BFS to fixpoint, all reachable states x {} events", name, a), cardinality: card, visited: transitions });
+    stats
+}
+
+/// Replay of a history case: returns all diffs (unfiltered text) of the last
+/// step and the probes.
+pub fn replay_history(case: &Value) -> Result<(Vec<Diff>, Event, String), String> {
+    let cfg: Cfg = serde_json::from_value(case["cfg"].clone()).map_err(|e| e.to_string())?;
+    let init: Vec<Event> = serde_json::from_value(case["init"].clone()).map_err(|e| e.to_string())?;
+    let history: Vec<Event> = serde_json::from_value(case["history"].clone()).map_err(|e| e.to_string())?;
+    if history.is_empty() {
+        return Err("empty history".into());
+    }
+    let m = Machine { cfg, init, alphabet: history.clone() };
+    let idx: Vec<u8> = (0..history.len() as u8).collect();
+    let owned = Owned::new(&m.cfg);
+    let node = m.eval(&owned, &probes(&m.cfg), &idx);
+    let observed = format!("last step {:?}; eids {:?}; probes {}", node.last_obs, node.eids, hex(&node.probe_answers));
+    Ok((node.diffs, history.last().unwrap().clone(), observed))
+}
+
+/// Replay of a history-pair case (hidden-state differential).
+pub fn replay_pair(case: &Value) -> Result<(bool, String), String> {
+    let cfg: Cfg = serde_json::from_value(case["cfg"].clone()).map_err(|e| e.to_string())?;
+    let init: Vec<Event> = serde_json::from_value(case["init"].clone()).map_err(|e| e.to_string())?;
+    let h1: Vec<Event> = serde_json::from_value(case["history"].clone()).map_err(|e| e.to_string())?;
+    let h2: Vec<Event> = serde_json::from_value(case["other"].clone()).map_err(|e| e.to_string())?;
+    let owned = Owned::new(&cfg);
+    let pk = probes(&cfg);
+    let m1 = Machine { cfg: cfg.clone(), init: init.clone(), alphabet: h1.clone() };
+    let m2 = Machine { cfg, init, alphabet: h2.clone() };
+    let n1 = m1.eval(&owned, &pk, &(0..h1.len() as u8).collect::<Vec<_>>());
+    let n2 = m2.eval(&owned, &pk, &(0..h2.len() as u8).collect::<Vec<_>>());
+    let same = n1.last_obs == n2.last_obs && n1.probe_answers == n2.probe_answers;
+    Ok((same, format!("{:?} / {:?} ; probes {} / {}", n1.last_obs, n2.last_obs, hex(&n1.probe_answers), hex(&n2.probe_answers))))
+}
